@@ -90,6 +90,8 @@ where
 
         let blob_hash = BlobHash::from_bytes(*self.hasher.finalize().as_bytes());
 
+        #[cfg(feature = "verif-hooks")]
+        crate::verif::point("put.before_register");
         // Register intent - returns a guard that will cleanup on drop if not committed
         let intent_guard = self
             .cas_inner
@@ -97,6 +99,8 @@ where
             .register_intent(self.key.clone(), IntentMeta { blob_hash, blob_size: self.size })
             .map_err(crate::LibError::Index)?;
 
+        #[cfg(feature = "verif-hooks")]
+        crate::verif::point("put.before_rename");
         tracing::debug!(%blob_hash, key = ?self.key, "Committing transaction");
         let _cas_path = self
             .cas_inner
